@@ -34,10 +34,23 @@ func newCtl(seed int64, level int, period time.Duration, f filter.Filter) *ctl {
 func newCtlWith(srv *fakeapi.Server, seed int64, level int, period time.Duration, f filter.Filter) *ctl {
 	pert := sched.NewPerturb(seed, level)
 	ctx, cancel := context.WithCancel(context.Background())
-	b := kcache.NewBuilder().Context(ctx).Log(pert.Log()).Client(client.NewClient(srv.List, srv.Watch))
-	b.Lister().RefreshPeriod(period)
-	if f != nil {
-		b = b.Filter(f)
+	var b kcache.Builder
+	if seed%2 == 0 {
+		b = kcache.NewBuilder().Context(ctx).Log(pert.Log()).Client(client.NewClient(srv.List, srv.Watch))
+		b.Lister().RefreshPeriod(period)
+		if f != nil {
+			b = b.Filter(f)
+		}
+	} else {
+		// the same configuration statement by statement, the returned builder unused
+		b = kcache.NewBuilder()
+		b.Context(ctx)
+		b.Log(pert.Log())
+		b.Client(client.NewClient(srv.List, srv.Watch))
+		b.Lister().RefreshPeriod(period)
+		if f != nil {
+			b.Filter(f)
+		}
 	}
 	c, err := b.Create()
 	if err != nil {
